@@ -245,7 +245,7 @@ func batchFirst(fr *FuncResult, dir string, perQueryMs int) {
 		}
 		fmt.Fprintf(&b, "(push)\n(assert (not %s))\n(check-sat)\n(pop)\n", Imp(o.Guard, o.Goal))
 	}
-	file := filepath.Join(dir, safeFile(fr.Key)+".batch.smt2")
+	file := filepath.Join(dir, fmt.Sprintf("%s.%d.batch.smt2", safeFile(fr.Key), fr.Seq))
 	os.WriteFile(file, []byte(plainSMT(b.String())), 0o644)
 	cpuSem <- struct{}{}
 	ctx, cancel := context.WithTimeout(context.Background(), time.Duration(perQueryMs*len(fr.Obls)+5000)*time.Millisecond)
@@ -305,7 +305,7 @@ func safeFile(s string) string {
 func raceOne(fr *FuncResult, o *Obligation, dir string, timeoutS int, keepDir string) {
 	q0 := queryText(fr, o, false)
 	q := plainSMT(q0)
-	file := filepath.Join(dir, safeFile(fr.Key+"__"+o.Name)+".smt2")
+	file := filepath.Join(dir, fmt.Sprintf("%s.%d.smt2", safeFile(fr.Key+"__"+o.Name), fr.Seq))
 	os.WriteFile(file, []byte(q), 0o644)
 	filePat := ""
 	if qp := patSMT(q0); qp != q {
@@ -394,7 +394,7 @@ func raceOne(fr *FuncResult, o *Obligation, dir string, timeoutS int, keepDir st
 	}
 	if (o.Verdict != "proved" || o.Kind == "cover" || os.Getenv("GOVC_DUMPALL") != "") && keepDir != "" {
 		os.MkdirAll(keepDir, 0o755)
-		os.WriteFile(filepath.Join(keepDir, filepath.Base(file)), []byte(q), 0o644)
+		os.WriteFile(filepath.Join(keepDir, safeFile(fr.Key+"__"+o.Name)+".smt2"), []byte(q), 0o644)
 	}
 	os.Remove(file)
 }
